@@ -14,7 +14,7 @@ import fsic
 from fsic.exceptions import ParserError, SymbolError
 
 from .. import programs, recarray, refsolve
-from ..core.runner import Acc, guard, CaseTimeout
+from ..core.runner import Acc, guard, CaseTimeout, robust
 
 ID = 'C04'
 LEVEL = 'exploration'
@@ -111,6 +111,7 @@ def changed(before, m):
     return out
 
 
+@robust(1, "exception")
 def run_case(case, p=None, Model=None):
     if p is None:
         p = next(q for q in progs('thorough') if q.script() == case['script'])
@@ -183,6 +184,7 @@ def run_case(case, p=None, Model=None):
     return out, 'solved'
 
 
+@robust()
 def run_solve_case(case, p=None, Model=None):
     """solve(start, end): touches only [start..end]; an infeasible start/end is rejected, not wrapped."""
     if p is None:
